@@ -131,6 +131,13 @@ def check_matrix(REC, bct, A, L, scheme, directed, big=False):
     if 3 <= n <= 9 and scheme in ('int', 'real'):
         for fname in ('distance_wei', 'distance_wei_floyd', 'rout_efficiency', 'distance_bin', 'reachdist', 'breadthdist', 'efficiency_wei'):
             layout_variants_agree(REC, PROP, fname, getattr(bct, fname), L)
+    if 3 <= n <= 9 and scheme == 'int':
+        # integer lengths / connection counts held in integer arrays (the weighted routines invert them internally)
+        dtype_variants_agree(REC, PROP, 'distance_wei', bct.distance_wei, L, exact=False, float32=False)
+        dtype_variants_agree(REC, PROP, 'distance_wei_floyd', bct.distance_wei_floyd, L, exact=False, float32=False)
+        dtype_variants_agree(REC, PROP, 'distance_wei_floyd', bct.distance_wei_floyd, L, kwargs={'transform': 'inv'}, exact=False, float32=False)
+        dtype_variants_agree(REC, PROP, 'efficiency_wei', bct.efficiency_wei, L, exact=False, float32=False)
+        dtype_variants_agree(REC, PROP, 'rout_efficiency', bct.rout_efficiency, L, kwargs={'transform': 'inv'}, exact=False, float32=False)
     # ---- distance_wei (any scheme; lengths)
     ok, res = call(REC, PROP, 'distance_wei', bct.distance_wei, L)
     if ok:
